@@ -69,6 +69,10 @@ pub unsafe extern "C" fn haystack_filter_parse(val: *const c_char) -> Option<Box
 /// Panics on invalid input data
 #[no_mangle]
 pub unsafe extern "C" fn haystack_filter_destroy(filter: *mut Filter) {
+    if filter.is_null() {
+        new_error("Invalid null argument(s)");
+        return;
+    }
     _ = Box::from_raw(filter);
 }
 
